@@ -468,6 +468,19 @@ func GenDaemon(prop string, seed uint64, tier string) *DaemonScenario {
 		}
 	}
 	sc.Rounds = int((sc.HealAtMs-g0)/periodMs) + 8 + rounds/2
+	for _, p := range sc.Reshares {
+		if p.Fail == "exec_partition" {
+			// the driver isolates every participant during the execution; a scripted heal would lift that
+			kept := sc.Script[:0]
+			for _, a := range sc.Script {
+				if a.Kind != "partition" && a.Kind != "heal" {
+					kept = append(kept, a)
+				}
+			}
+			sc.Script = kept
+			break
+		}
+	}
 	sort.SliceStable(sc.Script, func(i, j int) bool { return sc.Script[i].AtMs < sc.Script[j].AtMs })
 	return sc
 }
